@@ -316,6 +316,17 @@ func (srv *Server) Close() {
 	}
 }
 
+// FaultCounts returns a copy of the fired-fault counters.
+func (srv *Server) FaultCounts() map[string]int {
+	srv.mu.Lock()
+	defer srv.mu.Unlock()
+	out := map[string]int{}
+	for k, v := range srv.Faults {
+		out[k] = v
+	}
+	return out
+}
+
 // Snapshot returns a copy of the request log.
 func (srv *Server) Snapshot() []Request {
 	srv.mu.Lock()
